@@ -4,6 +4,7 @@
 // "filewriter-matrix" (every open-flag subset x {file exists, does not exist}, durable bytes after close).
 #include "../kernel/core.h"
 #include "../seams/env.h"
+#include "../seams/simstream.h"
 #include "Stream/DynamicMemoryWriter.h"
 #include "Stream/FileReader.h"
 #include "Stream/FileWriter.h"
@@ -413,7 +414,7 @@ struct CopyMatrix : Family {
 		case 3: len = chunk * r.range(1, 3) - 1; break;           // just under
 		default: len = r.below(3 * chunk + 3); break;
 		}
-		p.setenv("backend", BK[r.below(4)]);
+		p.setenv("backend", r.chance(1, 5) ? "sim" : BK[r.below(4)]); // sim: a stub reader at whose callbacks a second copy is interleaved
 		p.setenv("pad_a", r.below(30));
 		p.setenv("pad_b", r.below(30));
 		p.setenv("heap", r.below(256));
@@ -472,9 +473,30 @@ struct CopyMatrix : Family {
 				if (b == "mem") rd = std::make_unique<Stream::MemoryReader>(block.get(), whole.size());
 				else if (b == "memslice") rd = std::make_unique<Stream::MemoryReader>(Stream::MemoryReader(block.get(), whole.size()).Slice(base, S.size()));
 				else if (b == "file") rd = std::make_unique<Stream::FileReader>("src.bin");
+				else if (b == "sim") rd = std::make_unique<SimReader>(S);
 				else rd = std::make_unique<Stream::FileSliceReader>(Stream::FileReader("src.bin").Slice(base, S.size()));
 				rd->Seek(start);
 			}, &what);
+			// Interleaving: while this copy is in progress (inside one of its reads) a second, unrelated copy with the same chunk size
+			// runs to completion on other objects. Both must transfer exactly their own bytes.
+			std::vector<uint8_t> otherSrc, otherGot;
+			bool otherRan = false;
+			if (auto* sr = dynamic_cast<SimReader*>(rd.get())) {
+				otherSrc.resize(S.size() / 2 + 7);
+				for (size_t q = 0; q < otherSrc.size(); ++q) otherSrc[q] = static_cast<uint8_t>((S.empty() ? 0x5a : ~S[q % S.size()]) + q);
+				sr->interleaveAtCall = 1 + mix64(plan.seed, i) % 3;
+				sr->interleave = [&, chunk] {
+					Stream::MemoryReader r2(otherSrc.data(), otherSrc.size());
+					Stream::DynamicMemoryWriter w2;
+					switch (chunk) {
+					case 1: copyWith<1>(w2, r2); break; case 2: copyWith<2>(w2, r2); break; case 3: copyWith<3>(w2, r2); break; case 5: copyWith<5>(w2, r2); break;
+					case 8: copyWith<8>(w2, r2); break; case 64: copyWith<64>(w2, r2); break; case 1000: copyWith<1000>(w2, r2); break; case 4096: copyWith<4096>(w2, r2); break;
+					default: w2.Write(r2); break;
+					}
+					auto r3 = w2.GetReader(); otherGot.resize(static_cast<size_t>(r3.Length())); r3.Read(otherGot.data(), otherGot.size());
+					otherRan = true;
+				};
+			}
 			if (o != OkOut) ctx.fail("C14.copy-exact", "could not open the source reader: " + what);
 			std::vector<uint8_t> got;
 			std::string desc = "copy chunk=" + std::to_string(chunk) + " source length " + std::to_string(S.size()) + " start " + std::to_string(start) + " backend " + b + (toFile ? " -> file" : " -> memory");
@@ -499,6 +521,12 @@ struct CopyMatrix : Family {
 				if (dw) { auto r2 = dw->GetReader(); got.resize(static_cast<size_t>(r2.Length())); r2.Read(got.data(), got.size()); }
 			}, &what);
 			if (o != OkOut) ctx.fail("C14.copy-exact", desc + ": copy failed: " + what);
+			if (auto* sr = dynamic_cast<SimReader*>(rd.get())) {
+				if (!sr->interleaveError.empty()) ctx.fail("C14.copy-exact", desc + ": the copy interleaved into it failed: " + sr->interleaveError);
+				if (otherRan && otherGot != otherSrc) ctx.fail("C14.copy-exact", desc + ": a second copy (same chunk size, other objects) interleaved into it transferred other bytes than its source holds");
+				if (otherRan) ctx.count("probe.second_copy_interleaved");
+				sr->interleave = nullptr;
+			}
 			if (reuse) {
 				sharedWant.insert(sharedWant.end(), S.begin() + static_cast<long>(start), S.end());
 				std::vector<uint8_t> all;
@@ -515,7 +543,7 @@ struct CopyMatrix : Family {
 				ctx.fail("C14.copy-exact", desc + ": destination has " + std::to_string(got.size()) + " bytes, expected exactly the " + std::to_string(want) + " remaining source bytes (first difference at " + std::to_string(k) + ")");
 			}
 			// In-bounds afterwards only for readers that survive hitting their end (file readers latch EOF).
-			if (b == "mem" || b == "memslice" || b == "fileslice") {
+			if (b == "mem" || b == "memslice" || b == "fileslice" || b == "sim") {
 				uint64_t p, l;
 				{ Armed arm; p = rd->Position(); l = rd->Length(); }
 				if (p != l || l != S.size()) ctx.fail("C14.copy-exact", desc + ": source reader afterwards at " + std::to_string(p) + "/" + std::to_string(l) + ", expected at its end " + std::to_string(S.size()));
